@@ -1,0 +1,151 @@
+//go:build verif
+
+// Contracts for package ddptypes, read by the verification machinery in /verif.
+// This file contains no executable code; it is compiled only with -tags verif.
+package ddptypes
+
+/*@
+// type graphs are built once by the parser and never rewritten
+immutable ddptypes.TypeAlias ddptypes.TypeDef ddptypes.InstantiatedGenericType
+
+// norm(t): t with every alias (and resolved generic) replaced by its target, also inside list types.
+// The four axioms are the recursive definition of norm by cases on the dynamic type.
+spec norm(t Type) Type
+// tnorm(t): like norm, but a type definition at the top is also replaced by its base type
+spec tnorm(t Type) Type
+// rank(t): a well-founded measure on type graphs (assumption: type graphs are acyclic)
+spec rank(t Type) int
+// printed name of a type
+spec typeString(t Type) string
+
+axiom norm_alias: forall a *TypeAlias :: norm(box(a)) == norm(a.Underlying)
+axiom norm_inst:  forall g *InstantiatedGenericType :: norm(box(g)) == norm(g.Actual)
+axiom norm_list:  forall e Type :: norm(box(mk[ListType](e))) == box(mk[ListType](norm(e)))
+axiom norm_other: forall t Type :: !is[*TypeAlias](t) && !is[ListType](t) && !is[*InstantiatedGenericType](t) ==> norm(t) == t
+
+axiom rank_nonneg: forall t Type :: rank(t) >= 0
+axiom rank_alias:  forall a *TypeAlias :: rank(a.Underlying) < rank(box(a))
+axiom rank_def:    forall d *TypeDef :: rank(d.Underlying) < rank(box(d))
+axiom rank_inst:   forall g *InstantiatedGenericType :: rank(g.Actual) < rank(box(g))
+axiom rank_list:   forall e Type :: rank(e) < rank(box(mk[ListType](e)))
+// consequence of the definition of norm by induction on rank (not provable by the SMT solver itself)
+axiom rank_norm:   forall t Type :: rank(norm(t)) <= rank(t)
+
+axiom tnorm_def:   forall d *TypeDef :: tnorm(box(d)) == tnorm(d.Underlying)
+axiom tnorm_other: forall t Type :: !is[*TypeDef](t) ==>
+                     (is[*TypeDef](norm(t)) ? tnorm(t) == tnorm(norm(t).(*TypeDef).Underlying) : tnorm(t) == norm(t))
+
+func (Type).String
+  pure
+  trusted
+  ensures result == typeString(recv)
+
+func GetUnderlying [C14, C03]
+  pure
+  decreases rank(t)
+  ensures result == norm(t)
+
+func Equal [C14]
+  pure
+  ensures result <==> norm(t1) == norm(t2)
+
+func IsNumeric [C14]
+  pure
+  ensures result <==> (norm(t) == ZAHL || norm(t) == KOMMAZAHL || norm(t) == BYTE)
+
+func IsPrimitive [C14]
+  pure
+  ensures result <==> is[PrimitiveType](norm(t))
+
+func IsList [C14]
+  pure
+  ensures result <==> is[ListType](norm(t))
+
+func IsVoid [C14]
+  pure
+  ensures result <==> is[VoidType](norm(t))
+
+func IsAny [C14]
+  pure
+  ensures result <==> is[Variable](norm(t))
+
+func IsStruct [C14]
+  pure
+  ensures result <==> is[*StructType](norm(t))
+
+func IsTypeDef [C14]
+  pure
+  ensures result <==> is[*TypeDef](norm(t))
+
+func IsTypeAlias [C14]
+  pure
+  ensures result <==> is[*TypeAlias](t)
+
+func IsGeneric [C14]
+  pure
+  ensures result <==> is[GenericType](norm(t))
+
+func CastList [C14]
+  returns lt, ok
+  pure
+  ensures ok <==> is[ListType](norm(t))
+  ensures ok ==> box(lt) == norm(t)
+
+func CastTypeDef [C14]
+  returns td, ok
+  pure
+  ensures ok <==> is[*TypeDef](norm(t))
+  ensures ok ==> box(td) == norm(t)
+
+func CastStruct [C14]
+  returns st, ok
+  pure
+  ensures ok <==> is[*StructType](norm(t))
+  ensures ok ==> box(st) == norm(t)
+
+func CastGeneric [C14]
+  returns g, ok
+  pure
+  ensures ok <==> is[GenericType](norm(t))
+  ensures ok ==> box(g) == norm(t)
+
+func CastPrimitive [C14]
+  returns p, ok
+  pure
+  ensures ok <==> is[PrimitiveType](norm(t))
+  ensures ok ==> box(p) == norm(t)
+
+func ParamTypesEqual [C14, C20]
+  pure
+  ensures result <==> (p1.IsReference == p2.IsReference && norm(p1.Type) == norm(p2.Type))
+
+func GetListElementType [C14]
+  pure
+  ensures is[ListType](norm(typ)) ==> result == norm(typ).(ListType).ElementType
+  ensures !is[ListType](norm(typ)) ==> result == typ
+
+func TrueUnderlying [C14, C03]
+  pure
+  decreases rank(t)
+  ensures result == tnorm(t)
+
+// ---- the laws of the C14 statement, proved from the contracts above ----
+lemma L_refl [C14]:  forall a Type :: Equal(a, a)
+lemma L_sym [C14]:   forall a, b Type :: Equal(a, b) ==> Equal(b, a)
+lemma L_trans [C14]: forall a, b, c Type :: Equal(a, b) && Equal(b, c) ==> Equal(a, c)
+// an alias is identified with its target ...
+lemma L_alias_transparent [C14]: forall a *TypeAlias :: Equal(box(a), a.Underlying)
+// ... also inside list types ...
+lemma L_alias_under_list [C14]: forall a *TypeAlias :: Equal(box(mk[ListType](box(a))), box(mk[ListType](a.Underlying)))
+lemma L_alias_under_list2 [C14]: forall a *TypeAlias :: Equal(box(mk[ListType](box(mk[ListType](box(a))))), box(mk[ListType](box(mk[ListType](a.Underlying)))))
+// ... and behind further aliases
+lemma L_alias_behind_alias [C14]: forall a, b *TypeAlias :: b.Underlying == box(a) ==> Equal(box(b), a.Underlying)
+lemma L_alias_congruence [C14]: forall a *TypeAlias, t Type :: Equal(box(a), t) <==> Equal(a.Underlying, t)
+// a type definition is never identified with its base type ...
+lemma L_def_opaque [C14]: forall d *TypeDef :: !Equal(box(d), d.Underlying)
+// ... nor with another definition (of the same base or not)
+lemma L_def_identity [C14]: forall d1, d2 *TypeDef :: Equal(box(d1), box(d2)) <==> d1 == d2
+// a type definition over a number is not itself numeric (it converts only explicitly)
+lemma L_def_not_numeric [C14]: forall d *TypeDef :: !IsNumeric(box(d))
+lemma L_list_equal [C14]: forall a, b Type :: Equal(box(mk[ListType](a)), box(mk[ListType](b))) <==> Equal(a, b)
+@*/
